@@ -50,7 +50,7 @@ import (
 
 const (
 	c09PControlInterval = 15 * time.Millisecond
-	c09PStallPasses     = 60 // control passes without a pass of the log under test
+	c09PStallPasses     = 240 // control passes without a pass of the log under test (and >= 3 s, see await)
 	c09PPoint           = "clean.afterCleanSegments"
 )
 
@@ -228,6 +228,7 @@ type c09PCase struct {
 func (p *c09PCase) await() string {
 	ctl0, _, _ := c09PControl.snapshot()
 	last, _, _ := p.st.snapshot()
+	last0, lastAt := last, time.Now()
 	deadline := time.Now().Add(90 * time.Second)
 	for {
 		ev, parked, _ := p.st.snapshot()
@@ -238,7 +239,13 @@ func (p *c09PCase) await() string {
 		if ev != last {
 			last, ctl0 = ev, ctl
 		}
-		if ctl-ctl0 >= c09PStallPasses {
+		if ev != last0 {
+			last0, lastAt = ev, time.Now()
+		}
+		// "stalled" needs BOTH many control passes and real time without any
+		// pass of this log: on an overloaded machine one loop goroutine can be
+		// starved for a while although the control loop gets to run
+		if ctl-ctl0 >= c09PStallPasses && time.Since(lastAt) >= 3*time.Second {
 			return "stalled"
 		}
 		if time.Now().After(deadline) {
@@ -330,8 +337,43 @@ func c09PKinds(l c09Limits, ageOn bool) string {
 // from before the change and applies the sequential C09 oracle.
 func (p *c09PCase) judge(all []c09Seg, how, waited string) (cur []c09Seg, removed int, ok bool) {
 	e := p.e
-	post, ok := e.scan("periodic cleaner, after " + how)
+	// Stable observation: the files and the segment list are read while no
+	// pass event happens in between; something scan() objects to is reported
+	// only if three observations in a row (20 ms apart, no pass in between)
+	// show the same thing — a pass caught between deleting files and
+	// installing its list, or a loop that was only starved, is transient.
+	var post []c09Seg
+	ok = false
+	same, lastIssue := 0, [2]string{}
+	for attempt := 0; attempt < 12; attempt++ {
+		ev0, _, _ := p.st.snapshot()
+		e.deferScan = true
+		st, sok := e.scan("periodic cleaner, after " + how)
+		e.deferScan = false
+		issue := e.scanIssue
+		ev1, _, _ := p.st.snapshot()
+		if ev0 != ev1 {
+			same = 0
+			time.Sleep(20 * time.Millisecond)
+			continue
+		}
+		if sok {
+			post, ok = st, true
+			break
+		}
+		if issue == lastIssue {
+			same++
+		} else {
+			same, lastIssue = 1, issue
+		}
+		if same >= 3 {
+			e.fail(issue[0], issue[1], nil)
+			return nil, 0, false
+		}
+		time.Sleep(20 * time.Millisecond)
+	}
 	if !ok {
+		e.rep.Inconc(fmt.Sprintf("periodic case: no stable observation of files and segment list after [%s] (the loop kept running or the state kept changing)", how))
 		return nil, 0, false
 	}
 	// The loop also rolls the log: a tick that finds the active segment full
